@@ -235,7 +235,11 @@ def mutate(r, kind, doc, force=None, prefer=None, at=None):
         # number and no number for a bool -- kept to what both formalisms treat as different types.
         if scalar:
             swap = ["x"] if isinstance(old, (bool, int, float)) else [7, 7.5] if isinstance(old, str) else [7, "x"]
-            options = [("retype-swap", v) for v in swap] + [("retype-class", v) for v in
+            pads = [("retype-pad", " " + old), ("retype-pad", old + " "), ("retype-pad", "\t" + old + "\n")] \
+                if isinstance(old, str) else []
+            # (a string padded with white space is another string: where the schema constrains the string -- tags,
+            # enumerations, patterns -- both formalisms refuse it, elsewhere both take it as it is)
+            options = pads + [("retype-swap", v) for v in swap] + [("retype-class", v) for v in
                                                              ([[1], {"zz": 1}, [], {}] + ([] if old is None else [None]))]
         elif isinstance(old, list):
             options = [("retype-class", v) for v in (7, "x", {"zz": 1}, None, True)]
